@@ -207,6 +207,17 @@ class Interp:
     def truth(self, v) -> bool:
         if isinstance(v, (Sym, Coerced)):
             raise Undecided(f"truth value of the input leaf {v!r}")
+        if isinstance(v, ObjV) and v.cls:
+            # an object is falsy when its class says so (__bool__, else __len__ == 0)
+            ch = self if v.cls == self.clsname else self.foreign(v.cls)
+            for dunder in ("__bool__", "__len__"):
+                m = ch.method(dunder) if ch is not None else None
+                if m is not None:
+                    r = ch.call_function(m, [], {}, bound_first=v)
+                    if isinstance(r, (Sym, Coerced)):
+                        raise Undecided(f"{dunder} of {v!r}")
+                    return bool(r)
+            return True
         if isinstance(v, (Ctor, TypeRef, Closure, BoundBuiltin, ObjV)):
             return True
         return bool(v)
